@@ -206,8 +206,8 @@ def mapNodes : List Item → Option (List Item)
 
 def snapshotKey (i : Nat) : Bytes := netmap_snapshotKeyPrefix_bytes ++ [i]
 
-/-- one iteration of the snapshot loop. `var newnodes []Node` stays nil for an empty list, and
-`std.Serialize(nil)` is the serialized Null. -/
+/-- one iteration of the snapshot loop. `newnodes := []Node{}`: an empty list is stored back as the
+serialized empty array (since f42319b; `var newnodes []Node` stored the serialized Null before). -/
 def migrateSnapshotAt (s : Store) (i : Nat) : Option Store :=
   match get s (snapshotKey i) with
   | none => some s
@@ -220,7 +220,7 @@ def migrateSnapshotAt (s : Store) (i : Nat) : Option Store :=
       | some nodes =>
         match mapNodes nodes with
         | none => none
-        | some nn => some (put s (snapshotKey i) (ser (if nn.isEmpty then .null else .array nn)))
+        | some nn => some (put s (snapshotKey i) (ser (.array nn)))
 
 def forSnapshots (s : Store) : List Nat → Option Store
   | [] => some s
